@@ -185,3 +185,6 @@ def run_proofs(ctx):
     from vf.proofs.c01_ops import run_ops
 
     run_ops(ctx)
+    from vf.proofs.terms import run_terms
+
+    run_terms(ctx, "C01")
